@@ -357,6 +357,11 @@ class Models(object):
 
         weight, log_flux, log_error = source.get_log_fluxes()
 
+        # Points with valid == 9 are only used for plotting and should never
+        # influence the fit (their log flux can be NaN, e.g. for -999 values,
+        # and NaN * 0 would otherwise propagate to all results)
+        log_flux[source.valid == 9] = 0.
+
         model_fluxes = self.log_fluxes_mJy
 
         if model_fluxes.ndim == 2:  # Aperture-independent fitting
